@@ -193,14 +193,6 @@ const preludeBase = `(set-option :produce-models true)
 (define-fun wrap1s16 ((x Int)) Int (ite (> x 32767) (- x 65536) (ite (< x (- 32768)) (+ x 65536) x)))
 (define-fun wrap1s32 ((x Int)) Int (ite (> x 2147483647) (- x 4294967296) (ite (< x (- 2147483648)) (+ x 4294967296) x)))
 (define-fun wrap1s64 ((x Int)) Int (ite (> x 9223372036854775807) (- x 18446744073709551616) (ite (< x (- 9223372036854775808)) (+ x 18446744073709551616) x)))
-(declare-fun eptr (Int Int) Int)
-(declare-fun eptr_arr (Int) Int)
-(declare-fun eptr_idx (Int) Int)
-(assert (forall ((a Int) (i Int)) (! (and (= (eptr_arr (eptr a i)) a) (= (eptr_idx (eptr a i)) i) (< (eptr a i) 0)) :pattern ((eptr a i)))))
-(declare-fun sub (Int Int) Int)
-(declare-fun sub_base (Int) Int)
-(declare-fun sub_id (Int) Int)
-(assert (forall ((a Int) (i Int)) (! (and (= (sub_base (sub a i)) a) (= (sub_id (sub a i)) i) (< (sub a i) 0)) :pattern ((sub a i)))))
 (declare-fun tdiv (Int Int) Int)
 (declare-fun tmod (Int Int) Int)
 (define-fun godiv ((a Int) (b Int)) Int (ite (>= a 0) (div a b) (- (div (- a) b))))
@@ -230,4 +222,14 @@ const preludeBits = `(declare-fun bor (Int Int) Int)
 (assert (forall ((a Int) (b Int)) (! (=> (and (>= a 0) (>= b 0)) (and (>= (bor a b) a) (>= (bor a b) b) (<= (bor a b) (+ a b)))) :pattern ((bor a b)))))
 (assert (forall ((a Int) (b Int)) (! (=> (and (>= a 0) (>= b 0)) (and (>= (band a b) 0) (<= (band a b) a) (<= (band a b) b))) :pattern ((band a b)))))
 (assert (forall ((a Int) (b Int)) (! (=> (and (>= a 0) (>= b 0)) (and (>= (bshr a b) 0) (<= (bshr a b) a))) :pattern ((bshr a b)))))
+`
+
+const preludePtr = `(declare-fun eptr (Int Int) Int)
+(declare-fun eptr_arr (Int) Int)
+(declare-fun eptr_idx (Int) Int)
+(assert (forall ((a Int) (i Int)) (! (and (= (eptr_arr (eptr a i)) a) (= (eptr_idx (eptr a i)) i) (< (eptr a i) 0)) :pattern ((eptr a i)))))
+(declare-fun sub (Int Int) Int)
+(declare-fun sub_base (Int) Int)
+(declare-fun sub_id (Int) Int)
+(assert (forall ((a Int) (i Int)) (! (and (= (sub_base (sub a i)) a) (= (sub_id (sub a i)) i) (< (sub a i) 0)) :pattern ((sub a i)))))
 `
